@@ -123,6 +123,24 @@ theorem durable_marks_needs_results_flush (final : Nat → Int) (g : Nat) (bs : 
     ∀ k ∈ (run {} (computeTrace final 1 g [0] bs)).dur.marked, k.file ≠ 1 :=
   dur_untouched final 1 g [0] (by simp) bs {} (by simp) (by simp)
 
+/-- **The per-batch checkpoint.**  The modelled compute loop, flushing the files the code flushes, writes a
+    completion mark only when the result it vouches for is already DURABLE in the file that holds the results -
+    for every pending set, every batch partition, results in the source file or in a separate file.  (This is the
+    acceptance `wfStrong` the observed trace of the real `compute()` must pass as well: oracle checkpoint-missing.) -/
+theorem model_trace_checkpointed (final : Nat → Int) (same : Bool) (g : Nat) (bs : List (List Nat)) :
+    wfStrongFrom final {} (computeTrace final (resFileOf same) g (codeFlushes same) bs) = true :=
+  strong_computeTrace final _ g _ (by cases same <;> simp [resFileOf, codeFlushes]) bs {}
+
+/-- ... and the stronger acceptance implies the plain one for every trace -/
+theorem checkpointed_implies_wf (final : Nat → Int) (t : List Ev) (h : wfStrongFrom final {} t = true) :
+    WellFormed final t = true := wfStrong_imp_wf final t {} h
+
+/-- without a flush of the results file (a `Dataset.flush()` in place of `File.flush()`, or the source file only)
+    the very first mark is refused -/
+example : wfStrongFrom (fun p => 10 * p) {} (computeTrace (fun p => 10 * p) 0 0 [] [[0, 2], [3, 4]]) = false ∧
+    wfStrongFrom (fun p => 10 * p) {} (computeTrace (fun p => 10 * p) 1 0 [0] [[0, 2], [3, 4]]) = false ∧
+    wfStrongFrom (fun p => 10 * p) {} (computeTrace (fun p => 10 * p) 1 0 [0, 1] [[0, 2], [3, 4]]) = true := by decide
+
 /-! Non-vacuity: a concrete run (N = 5, batch 2, mask 01000), an ill-formed trace, a crash index. -/
 example : WellFormed (fun p => 10 * p) (computeTrace (fun p => 10 * p) 0 0 [0] [[0, 2], [3, 4]]) = true := by
   decide
